@@ -2,15 +2,15 @@ SPECIFICATION MCSpec
 CONSTANTS QEmptyDel = FALSE
           QEager = FALSE
           QReplayRange = FALSE
-          Keys <- KeysA
+          Keys <- KeysB
           Vals <- ValsB
-          IterPrefixes <- PrefA
+          IterPrefixes <- PrefB
           MaxBatch = 2
-          BatchBounds <- BoundsS
+          BatchBounds <- BoundsB
           DirectWithBatch = 1
-          IterWithBatch = 1
-INVARIANTS TypeOK IterSorted HalfOpen ValueSizeExact
-PROPERTIES BufferingInvisible IterStable
+          IterWithBatch = 0
+INVARIANTS TypeOK IterSorted
 CONSTRAINT Bounded
+ACTION_CONSTRAINT Edge
 VIEW View
 CHECK_DEADLOCK FALSE
